@@ -27,6 +27,7 @@ import (
 	"runtime/debug"
 	"sort"
 	"strings"
+	"sync/atomic"
 	"time"
 	"unsafe"
 )
@@ -82,7 +83,6 @@ const (
 	KindHorizon  = "horizon"  // step horizon exceeded
 	KindPanic    = "panic"    // a controlled thread panicked
 	KindDiverged = "diverged" // a choice of the replayed prefix was out of range (internal error)
-	KindStuck    = "stuck"    // a thread blocked outside the scheduler (unhooked blocking operation; internal error)
 )
 
 // PointRec is one scheduling decision.
@@ -118,7 +118,6 @@ type Config struct {
 	Horizon    int     // max steps (0 = 100000)
 	SpinRounds int     // livelock threshold (0 = default)
 	Trace      bool
-	StuckAfter time.Duration // real-time watchdog for a thread that blocks outside the scheduler (0 = 20 s)
 }
 
 type pending struct {
@@ -350,10 +349,10 @@ func Yield() {
 		runtime.Gosched()
 		return
 	}
-	s.park(pending{op: OpYield})
 	if !s.aborting {
 		s.cur.yielding = true
 	}
+	s.park(pending{op: OpYield})
 }
 
 // Go starts f as a new controlled thread (the rewriting of a go statement).
@@ -403,6 +402,21 @@ func (s *Sched) newThread(f func()) *thread {
 	return t
 }
 
+// Spawn starts f as a new controlled thread WITHOUT a scheduling point of the
+// caller; for code that runs on the scheduler's own goroutine (timer
+// callbacks: time.AfterFunc).
+func Spawn(f func()) {
+	s := active
+	if s == nil {
+		go f()
+		return
+	}
+	if s.aborting {
+		return
+	}
+	s.newThread(f)
+}
+
 // AddTimer registers a virtual timer that fires fire(now) on the scheduler's
 // goroutine when virtual time reaches when (period > 0: repeatedly).  Used by
 // vtime.  The returned handle stops it.
@@ -410,6 +424,9 @@ func AddTimer(d, period int64, fire func(now int64)) (stop func() bool, reset fu
 	s := active
 	if s == nil {
 		panic("vsched.AddTimer outside an execution")
+	}
+	if s.aborting {
+		return func() bool { return false }, func(int64) bool { return false }
 	}
 	if d < 0 {
 		d = 0
@@ -426,7 +443,7 @@ func AddTimer(d, period int64, fire func(now int64)) (stop func() bool, reset fu
 		if d < 0 {
 			d = 0
 		}
-		tm.when = active.now + d
+		tm.when = s.now + d
 		tm.active = true
 		return was
 	}
@@ -438,29 +455,39 @@ func New(cfg Config) *Sched {
 	if cfg.Horizon <= 0 {
 		cfg.Horizon = 100000
 	}
-	if cfg.SpinRounds <= 0 {
-		cfg.SpinRounds = 0
-	}
-	if cfg.StuckAfter <= 0 {
-		cfg.StuckAfter = 20 * time.Second
-	}
 	return &Sched{cfg: cfg, yield: make(chan struct{}), now: Epoch, objs: map[unsafe.Pointer]int32{}, digest: fnvOff, ex: &Exec{}}
 }
 
+// heartbeat counts thread resumptions of the whole process; inExec says that
+// an execution is in progress.  Watchdog (started by the explorer) uses both
+// to turn "a thread blocked in an operation the scheduler cannot see" into an
+// internal error instead of a hang.
+var heartbeat, inExec uint64
+
+// Watchdog starts a real goroutine that calls stuck(desc) when an execution
+// is active and no thread has reached a scheduling point for the duration d.
+func Watchdog(d time.Duration, stuck func(desc string)) {
+	go func() {
+		last, since := uint64(0), time.Now()
+		for {
+			time.Sleep(d / 4)
+			hb := atomic.LoadUint64(&heartbeat)
+			if atomic.LoadUint64(&inExec) == 0 || hb != last {
+				last, since = hb, time.Now()
+				continue
+			}
+			if time.Since(since) >= d {
+				stuck(fmt.Sprintf("no scheduling point reached for %v: a controlled thread blocks in (or spins through) code the scheduler does not see", d))
+				since = time.Now()
+			}
+		}
+	}()
+}
+
 func (s *Sched) waitYield() bool {
-	select {
-	case <-s.yield:
-		return true
-	default:
-	}
-	tm := time.NewTimer(s.cfg.StuckAfter)
-	defer tm.Stop()
-	select {
-	case <-s.yield:
-		return true
-	case <-tm.C:
-		return false
-	}
+	<-s.yield
+	atomic.AddUint64(&heartbeat, 1)
+	return true
 }
 
 // Run executes body as thread 0 under the scheduler and returns the record.
@@ -471,6 +498,8 @@ func (s *Sched) Run(body func()) *Exec {
 		panic("vsched: nested or concurrent execution")
 	}
 	active = s
+	atomic.StoreUint64(&inExec, 1)
+	defer atomic.StoreUint64(&inExec, 0)
 	ex := s.ex
 	s.newThread(body)
 	kind := ""
@@ -490,7 +519,7 @@ func (s *Sched) Run(body func()) *Exec {
 			break
 		}
 		t := cands[choice]
-		if i < len(s.cfg.ExpectTid) && s.cfg.ExpectTid[i] != t.id {
+		if i < len(s.cfg.ExpectTid) && s.cfg.ExpectTid[i] >= 0 && s.cfg.ExpectTid[i] != t.id {
 			kind, ex.BadPoint = KindDiverged, i
 			break
 		}
@@ -506,12 +535,9 @@ func (s *Sched) Run(body func()) *Exec {
 			}
 			ex.Trace = append(ex.Trace, fmt.Sprintf("#%d run t%d (%s o%d) of [%s]", i, t.id, t.pend.op, t.pend.obj, strings.Join(ids, " ")))
 		}
-		if s.cur != t {
-			for _, o := range s.threads {
-				if o != t {
-					o.yielding = false
-				}
-			}
+		// a step of any thread ends every de-prioritisation
+		for _, o := range s.threads {
+			o.yielding = false
 		}
 		s.cur = t
 		ex.Steps++
@@ -520,13 +546,7 @@ func (s *Sched) Run(body func()) *Exec {
 			break
 		}
 		t.resume <- struct{}{}
-		if !s.waitYield() {
-			// a thread blocked in an operation the scheduler does not see
-			ex.Kind = KindStuck
-			ex.Blocked = []string{fmt.Sprintf("t%d did not reach a scheduling point within %v after %s", t.id, s.cfg.StuckAfter, t.pend.op)}
-			active = nil // the execution cannot be torn down; the process must exit
-			return ex
-		}
+		s.waitYield()
 		if s.panicked {
 			kind = KindPanic
 		}
@@ -552,11 +572,7 @@ func (s *Sched) Run(body func()) *Exec {
 		if !t.finished {
 			s.cur = t
 			t.resume <- struct{}{}
-			if !s.waitYield() {
-				ex.Kind = KindStuck
-				active = nil
-				return ex
-			}
+			s.waitYield()
 		}
 	}
 	ex.Threads = len(s.threads)
